@@ -55,8 +55,8 @@ theorem takeWhile_key (ds rest : List Char) (h : ∀ c ∈ ds, c ≠ ' ') :
   | nil => simp
   | cons d ds ih =>
     have hd : d ≠ ' ' := h d (by simp)
-    have := ih (fun c hc => h c (by simp [hc]))
-    simp [List.takeWhile_cons, hd, this]
+    rw [List.cons_append, List.takeWhile_cons, if_pos (by simpa using hd),
+      ih (fun c hc => h c (by simp [hc]))]
 
 theorem dropWhile_key (ds rest : List Char) (h : ∀ c ∈ ds, c ≠ ' ') :
     (ds ++ ' ' :: rest).dropWhile (· ≠ ' ') = ' ' :: rest := by
@@ -64,8 +64,8 @@ theorem dropWhile_key (ds rest : List Char) (h : ∀ c ∈ ds, c ≠ ' ') :
   | nil => simp
   | cons d ds ih =>
     have hd : d ≠ ' ' := h d (by simp)
-    have := ih (fun c hc => h c (by simp [hc]))
-    simp [List.dropWhile_cons, hd, this]
+    rw [List.cons_append, List.dropWhile_cons, if_pos (by simpa using hd),
+      ih (fun c hc => h c (by simp [hc]))]
 
 theorem mkKey_eq (c g : Name) : mkKey c g = natDigits c.length ++ ' ' :: (c ++ g) := by
   simp [mkKey]
@@ -75,10 +75,7 @@ theorem parse_mkKey (cluster group : Name) : parseKey (mkKey cluster group) = so
   unfold parseKey
   rw [mkKey_eq]
   simp only [takeWhile_key _ _ hsp, dropWhile_key _ _ hsp, digitsToNat_natDigits]
-  have hlen : ¬ (natDigits cluster.length).length
-      = (natDigits cluster.length ++ ' ' :: (cluster ++ group)).length := by
-    simp only [List.length_append, List.length_cons]; omega
-  simp [hlen]
+  simp
 
 theorem key_injective (c g c' g' : Name) (h : mkKey c g = mkKey c' g') : c = c' ∧ g = g' := by
   have h1 := parse_mkKey c g
@@ -92,19 +89,21 @@ theorem gcs_fst (cfg : Cfg) (c : Cache R) (now : Int) (cluster group : Name)
     (eval : Name → Name → Option R) (view : R → R) :
     (getConsumerStatus cfg c now cluster group eval view).1 =
       (query cfg c (mkKey cluster group) now
-        (fun k => (parseKey k).bind fun (cl, gr) => eval cl gr)).1 := rfl
+        (fun k => (parseKey k).bind fun (cl, gr) => eval cl gr)).1 := by
+  unfold getConsumerStatus; rfl
 
 theorem gcs_result (cfg : Cfg) (c : Cache R) (now : Int) (cluster group : Name)
     (eval : Name → Name → Option R) (view : R → R) :
     (getConsumerStatus cfg c now cluster group eval view).2.result =
       (query cfg c (mkKey cluster group) now
-        (fun k => (parseKey k).bind fun (cl, gr) => eval cl gr)).2.map view := rfl
+        (fun k => (parseKey k).bind fun (cl, gr) => eval cl gr)).2.map view := by
+  unfold getConsumerStatus; rfl
 
 theorem reply_names_request (cfg : Cfg) (c : Cache R) (now : Int) (cluster group : Name)
     (eval : Name → Name → Option R) (view : R → R) :
     (getConsumerStatus cfg c now cluster group eval view).2.cluster = cluster ∧
-    (getConsumerStatus cfg c now cluster group eval view).2.group = group :=
-  ⟨rfl, rfl⟩
+    (getConsumerStatus cfg c now cluster group eval view).2.group = group := by
+  unfold getConsumerStatus; exact ⟨rfl, rfl⟩
 
 theorem one_reply_per_request (cfg : Cfg) (eval : Int → Name → Name → Option R) (c : Cache R)
     (qs : List Req) : (runQ cfg eval c qs).length = qs.length := by
@@ -115,7 +114,8 @@ theorem one_reply_per_request (cfg : Cfg) (eval : Int → Name → Name → Opti
 theorem filtered_view_pure (cfg : Cfg) (c : Cache R) (now : Int) (cluster group : Name)
     (eval : Name → Name → Option R) (view : R → R) :
     (getConsumerStatus cfg c now cluster group eval view).1 =
-      (getConsumerStatus cfg c now cluster group eval id).1 := rfl
+      (getConsumerStatus cfg c now cluster group eval id).1 := by
+  rw [gcs_fst, gcs_fst]
 
 /-! ### freshness -/
 
@@ -136,12 +136,11 @@ theorem clookup_cstore_other (k k' : Name) (e : Entry R) (c : Cache R) (hne : k'
   | cons p rest ih =>
     obtain ⟨k'', e''⟩ := p
     by_cases h : k'' = k
-    · have : ¬ k'' = k' := fun h' => hne (h' ▸ h)
-      simp [cstore, clookup, h, Ne.symm hne, hne]
-      subst h
-      simp [this]
+    · subst h
+      simp [cstore, clookup, Ne.symm hne]
     · by_cases h2 : k'' = k'
-      · simp [cstore, clookup, h, h2]
+      · subst h2
+        simp [cstore, clookup, h]
       · simp [cstore, clookup, h, h2, ih]
 
 /-- every cached entry for a well-formed key is the evaluation of that key's own group at the
@@ -183,10 +182,10 @@ theorem update_fst (cfg : Cfg) (c : Cache R) (k : Name) (now : Int) (v : Option 
     cases clookup k c with
     | none => simp
     | some old =>
-      cases old.value with
-      | none => simp
+      cases hv : old.value with
+      | none => simp [hv]
       | some _ =>
-        by_cases hx : isExpired old now = true <;> simp [hx]
+        by_cases hx : isExpired old now = true <;> simp [hv, hx]
 
 theorem update_snd_of_miss (cfg : Cfg) (c : Cache R) (k : Name) (now : Int) (v : Option R)
     (hp : path c k now = .miss) : (update cfg c k now v).2.value = v := by
@@ -200,10 +199,10 @@ theorem update_snd_of_miss (cfg : Cfg) (c : Cache R) (k : Name) (now : Int) (v :
     | some old =>
       rw [hl] at hp
       cases hv : old.value with
-      | none => simp [newEntry]
+      | none => simp [hv, newEntry]
       | some r =>
         by_cases hx : isExpired old now = true
-        · simp [hx, newEntry]
+        · simp [hv, hx, newEntry]
         · simp [hx, hv] at hp
 
 theorem look_mkKey (ev : Name → Name → Option R) (cl gr : Name) :
